@@ -1,37 +1,72 @@
 import TapkeeVerif.Proofs.ParamsEvalBase
-/- per-method verdicts, part 1 (split over several files so that they elaborate in parallel) -/
+/- per-method verdicts, part 1 (split over several files so that they elaborate in parallel):
+   one symbolic evaluation of the generated tables per method and per value of `hasF` (which fixes `current_dimension`) -/
 set_option linter.unusedSimpArgs false
 namespace TapkeeVerif.Params
 open TapkeeVerif.Front TapkeeVerif.Gen TapkeeVerif.C14
 
+theorem verdict_KernelLocallyLinearEmbedding_f (r : Request) (t : TypedVals) (ps : PSet) (hget : ∀ k, ps.get k = t.get k)
+    (hm : t.meth .method = .KernelLocallyLinearEmbedding) (hF : r.hasF = true) : Verdict .KernelLocallyLinearEmbedding r t (afterMerge r ps) := by
+  front_simp [hget, hm, hF]
+  split_ifs <;> verdict_leaf
+
+theorem verdict_KernelLocallyLinearEmbedding_nof (r : Request) (t : TypedVals) (ps : PSet) (hget : ∀ k, ps.get k = t.get k)
+    (hm : t.meth .method = .KernelLocallyLinearEmbedding) (hF : r.hasF = false) : Verdict .KernelLocallyLinearEmbedding r t (afterMerge r ps) := by
+  front_simp [hget, hm, hF]
+  split_ifs <;> verdict_leaf
+
 theorem verdict_KernelLocallyLinearEmbedding (r : Request) (t : TypedVals) (ps : PSet) (hget : ∀ k, ps.get k = t.get k)
     (hm : t.meth .method = .KernelLocallyLinearEmbedding) : Verdict .KernelLocallyLinearEmbedding r t (afterMerge r ps) := by
-  front_simp [hget, hm]
+  cases hF : r.hasF
+  · exact verdict_KernelLocallyLinearEmbedding_nof r t ps hget hm hF
+  · exact verdict_KernelLocallyLinearEmbedding_f r t ps hget hm hF
+
+theorem verdict_NeighborhoodPreservingEmbedding_f (r : Request) (t : TypedVals) (ps : PSet) (hget : ∀ k, ps.get k = t.get k)
+    (hm : t.meth .method = .NeighborhoodPreservingEmbedding) (hF : r.hasF = true) : Verdict .NeighborhoodPreservingEmbedding r t (afterMerge r ps) := by
+  front_simp [hget, hm, hF]
+  split_ifs <;> verdict_leaf
+
+theorem verdict_NeighborhoodPreservingEmbedding_nof (r : Request) (t : TypedVals) (ps : PSet) (hget : ∀ k, ps.get k = t.get k)
+    (hm : t.meth .method = .NeighborhoodPreservingEmbedding) (hF : r.hasF = false) : Verdict .NeighborhoodPreservingEmbedding r t (afterMerge r ps) := by
+  front_simp [hget, hm, hF]
   split_ifs <;> verdict_leaf
 
 theorem verdict_NeighborhoodPreservingEmbedding (r : Request) (t : TypedVals) (ps : PSet) (hget : ∀ k, ps.get k = t.get k)
     (hm : t.meth .method = .NeighborhoodPreservingEmbedding) : Verdict .NeighborhoodPreservingEmbedding r t (afterMerge r ps) := by
-  front_simp [hget, hm]
+  cases hF : r.hasF
+  · exact verdict_NeighborhoodPreservingEmbedding_nof r t ps hget hm hF
+  · exact verdict_NeighborhoodPreservingEmbedding_f r t ps hget hm hF
+
+theorem verdict_KernelLocalTangentSpaceAlignment_f (r : Request) (t : TypedVals) (ps : PSet) (hget : ∀ k, ps.get k = t.get k)
+    (hm : t.meth .method = .KernelLocalTangentSpaceAlignment) (hF : r.hasF = true) : Verdict .KernelLocalTangentSpaceAlignment r t (afterMerge r ps) := by
+  front_simp [hget, hm, hF]
+  split_ifs <;> verdict_leaf
+
+theorem verdict_KernelLocalTangentSpaceAlignment_nof (r : Request) (t : TypedVals) (ps : PSet) (hget : ∀ k, ps.get k = t.get k)
+    (hm : t.meth .method = .KernelLocalTangentSpaceAlignment) (hF : r.hasF = false) : Verdict .KernelLocalTangentSpaceAlignment r t (afterMerge r ps) := by
+  front_simp [hget, hm, hF]
   split_ifs <;> verdict_leaf
 
 theorem verdict_KernelLocalTangentSpaceAlignment (r : Request) (t : TypedVals) (ps : PSet) (hget : ∀ k, ps.get k = t.get k)
     (hm : t.meth .method = .KernelLocalTangentSpaceAlignment) : Verdict .KernelLocalTangentSpaceAlignment r t (afterMerge r ps) := by
-  front_simp [hget, hm]
+  cases hF : r.hasF
+  · exact verdict_KernelLocalTangentSpaceAlignment_nof r t ps hget hm hF
+  · exact verdict_KernelLocalTangentSpaceAlignment_f r t ps hget hm hF
+
+theorem verdict_LinearLocalTangentSpaceAlignment_f (r : Request) (t : TypedVals) (ps : PSet) (hget : ∀ k, ps.get k = t.get k)
+    (hm : t.meth .method = .LinearLocalTangentSpaceAlignment) (hF : r.hasF = true) : Verdict .LinearLocalTangentSpaceAlignment r t (afterMerge r ps) := by
+  front_simp [hget, hm, hF]
+  split_ifs <;> verdict_leaf
+
+theorem verdict_LinearLocalTangentSpaceAlignment_nof (r : Request) (t : TypedVals) (ps : PSet) (hget : ∀ k, ps.get k = t.get k)
+    (hm : t.meth .method = .LinearLocalTangentSpaceAlignment) (hF : r.hasF = false) : Verdict .LinearLocalTangentSpaceAlignment r t (afterMerge r ps) := by
+  front_simp [hget, hm, hF]
   split_ifs <;> verdict_leaf
 
 theorem verdict_LinearLocalTangentSpaceAlignment (r : Request) (t : TypedVals) (ps : PSet) (hget : ∀ k, ps.get k = t.get k)
     (hm : t.meth .method = .LinearLocalTangentSpaceAlignment) : Verdict .LinearLocalTangentSpaceAlignment r t (afterMerge r ps) := by
-  front_simp [hget, hm]
-  split_ifs <;> verdict_leaf
-
-theorem verdict_HessianLocallyLinearEmbedding (r : Request) (t : TypedVals) (ps : PSet) (hget : ∀ k, ps.get k = t.get k)
-    (hm : t.meth .method = .HessianLocallyLinearEmbedding) : Verdict .HessianLocallyLinearEmbedding r t (afterMerge r ps) := by
-  front_simp [hget, hm]
-  split_ifs <;> verdict_leaf
-
-theorem verdict_LaplacianEigenmaps (r : Request) (t : TypedVals) (ps : PSet) (hget : ∀ k, ps.get k = t.get k)
-    (hm : t.meth .method = .LaplacianEigenmaps) : Verdict .LaplacianEigenmaps r t (afterMerge r ps) := by
-  front_simp [hget, hm]
-  split_ifs <;> verdict_leaf
+  cases hF : r.hasF
+  · exact verdict_LinearLocalTangentSpaceAlignment_nof r t ps hget hm hF
+  · exact verdict_LinearLocalTangentSpaceAlignment_f r t ps hget hm hF
 
 end TapkeeVerif.Params
